@@ -3,6 +3,7 @@ import Rdm.Generated.Facts
 import Rdm.Model.Pipeline
 import Rdm.Spec.C08
 import Rdm.Spec.C07
+import Rdm.Model.Validate
 namespace Rdm.Ops
 open Rdm
 
@@ -87,9 +88,17 @@ def opCheckC07 (args : List SExp) : R SExp := do
     pure (.atom (Spec.C07.explain dmp))
   | _ => throw "check-c07: arity"
 
+/-- `(validate-request method (crit...) (alt...) (chosen...))` → `(ok)` | `(err)` -/
+def opValidateRequest (args : List SExp) : R SExp := do
+  match args with
+  | [m, cs, ka, ch] =>
+    let r := validateRequest (α := Float) (← m.asStr) (← decCrits cs) (← decAlts ka) (← decStrs ch)
+    pure (encR r fun _ => .list [])
+  | _ => throw "validate-request: arity"
+
 def pipelineOps : List (String × (List SExp → R SExp)) :=
   [("listener-rank", opListenerRank), ("listener-removed", opListenerRemoved),
    ("listener-added", opListenerAdded), ("listener-merge", opListenerMerge),
-   ("process-biases", opProcessBiases), ("check-c08", opCheckC08), ("check-c07", opCheckC07)]
+   ("process-biases", opProcessBiases), ("check-c08", opCheckC08), ("check-c07", opCheckC07), ("validate-request", opValidateRequest)]
 
 end Rdm.Ops
